@@ -227,7 +227,41 @@ func (s *State) joinedGo(x *ssa.Go) bool {
 	return s.c.eng.hasWait[fn]
 }
 
-func (s *State) lockCheck(instr ssa.Instruction, a *Addr) {}
+// lockCheck: accesses to fields of guarded types need the UI mutex (C08, lock discipline).
+func (s *State) lockCheck(instr ssa.Instruction, a *Addr) {
+	if a.Space != "fld" {
+		return
+	}
+	n, ok := a.Struct.(*types.Named)
+	if !ok || n.Obj().Pkg() == nil {
+		return
+	}
+	eng := s.c.eng
+	guarded := false
+	for _, g := range eng.contracts.Guardeds {
+		if g.Type == n.Obj().Name() && g.Pkg == n.Obj().Pkg().Name() {
+			guarded = true
+		}
+	}
+	if !guarded {
+		return
+	}
+	fname := n.Obj().Name() + "." + n.Underlying().(*types.Struct).Field(a.Field).Name()
+	if s.c.con != nil {
+		for _, o := range s.c.con.Owns {
+			if o == fname {
+				s.c.assumed["field "+fname+" is accessed by "+s.c.name+" without the mutex: it is owned by this goroutine while its loading flag is set (flag set and cleared under the mutex; checked: no other writer)"] = true
+				return
+			}
+		}
+	}
+	// the mutex pointer itself is immutable after construction
+	if fname == "State.m" {
+		return
+	}
+	goal := or(s.held, app(">=", a.Ref, s.c.entry.alloc))
+	s.oblige("lock", instr, s.c.ordinal(instr, "lockfield"), goal, "access to "+fname+" without holding the UI mutex", false)
+}
 
 func (s *State) heldTerm() string { return s.held }
 
